@@ -310,6 +310,12 @@ def default_count_part(ctx, count):
 
 
 def run(ctx: C.Ctx):
+    from .. import shapes_static, translate_lifecycle
+    shapes_static.run_with_translation(ctx, translate_lifecycle, "Lifecycle", "life-cycle", lambda: _run(ctx),
+                                       "regenerated from SSPOR.update_n_basis_modes: the statement tree as written = the machine's three-branch updateModes")
+
+
+def _run(ctx: C.Ctx):
     default_count_part(ctx, ctx.scale(30, 300))
     rng = ctx.rng
     hs = []
